@@ -147,11 +147,21 @@ def _to_symbolic_repr(model: Model) -> SymbolicRepr:
     return sym
 
 
+def _free_name(name: str, taken: set[str]) -> str:
+    """Extend a generated function name until no component function has it."""
+    while name in taken:
+        name = f"{name}_"
+    return name
+
+
 def _codegen_variable(
-    k: str, var: SymbolicVariable, functions: dict[str, tuple[sympy.Expr, list[str]]]
+    k: str,
+    var: SymbolicVariable,
+    functions: dict[str, tuple[sympy.Expr, list[str]]],
+    taken: set[str],
 ) -> str:
     if isinstance(init := var.value, SymbolicFn):
-        fn_name = f"init_{init.fn_name}"
+        fn_name = _free_name(f"init_{init.fn_name}", taken)
         functions[fn_name] = (init.expr, init.args)
         return f"""        .add_variable(
             {k!r},
@@ -165,10 +175,13 @@ def _codegen_variable(
 
 
 def _codegen_parameter(
-    k: str, par: SymbolicParameter, functions: dict[str, tuple[sympy.Expr, list[str]]]
+    k: str,
+    par: SymbolicParameter,
+    functions: dict[str, tuple[sympy.Expr, list[str]]],
+    taken: set[str],
 ) -> str:
     if isinstance(init := par.value, SymbolicFn):
-        fn_name = f"init_{init.fn_name}"
+        fn_name = _free_name(f"init_{init.fn_name}", taken)
         functions[fn_name] = (init.expr, init.args)
         return f"""        .add_parameter(
             {k!r},
@@ -192,16 +205,25 @@ def generate_mxlpy_code_from_symbolic_repr(
     imports = [] if imports is None else imports
 
     functions: dict[str, tuple[sympy.Expr, list[str]]] = {}
+    # Names of the functions of derived quantities and reactions. The names generated
+    # for initial assignments and stoichiometries must not be among them.
+    taken = {fn.fn_name for fn in model.derived.values()} | {
+        rxn.fn.fn_name for rxn in model.reactions.values()
+    }
 
     # Variables
     variable_source = []
     for k, var in model.variables.items():
-        variable_source.append(_codegen_variable(k, var, functions=functions))
+        variable_source.append(
+            _codegen_variable(k, var, functions=functions, taken=taken)
+        )
 
     # Parameters
     parameter_source = []
     for k, par in model.parameters.items():
-        parameter_source.append(_codegen_parameter(k, par, functions=functions))
+        parameter_source.append(
+            _codegen_parameter(k, par, functions=functions, taken=taken)
+        )
 
     # Derived
     derived_source = []
@@ -224,7 +246,7 @@ def generate_mxlpy_code_from_symbolic_repr(
         stoichiometry: list[str] = []
         for var, stoich in rxn.stoichiometry.items():
             if isinstance(stoich, SymbolicFn):
-                fn_name = f"{k}_stoich_{stoich.fn_name}"
+                fn_name = _free_name(f"{k}_stoich_{stoich.fn_name}", taken)
                 functions[fn_name] = (stoich.expr, stoich.args)
                 stoichiometry.append(
                     f""""{var}": Derived(fn={fn_name}, args={stoich.args!r})"""
